@@ -131,3 +131,15 @@ PLANS['C17'] = {
     'run': api_runner({'quick': [('copy', 20, 25, 16)],
                        'thorough': [('copy', 250, 25, 16)]}),
 }
+
+PLANS['C16'] = {
+    'level': 'model_checking', 'tv_spec': 'TV_API',
+    'run': api_runner({'quick': [('limits', 12, 12, 12), ('limitsbig', 4, 20, 4)],
+                       'thorough': [('limits', 150, 12, 16), ('limitsbig', 40, 30, 16)]}),
+}
+
+PLANS['C09'] = {
+    'level': 'model_checking', 'tv_spec': 'TV_API',
+    'run': api_runner({'quick': [('scale', 16, 40, 12), ('scalerbare', 4, 60, 4)],
+                       'thorough': [('scale', 200, 40, 16), ('scalerbare', 30, 100, 16), ('certscaled', 100, 3, 8)]}),
+}
